@@ -21,6 +21,10 @@ int main() {
 	std::string line;
 	while (std::getline(std::cin, line)) {
 		auto t = vh::split(line);
+#ifdef LIBECPINT_VERIF
+		// `noscreen 0|1`: the hook switch of /repo (every screening decision bypassed)
+		if (t.size() == 2 && t[0] == "noscreen") { libecpint::verif::no_screening = vh::I(t[1]) != 0; continue; }
+#endif
 		if (t.empty() || t[0] != "pair") continue;
 		size_t k = 1;
 		int maxLB = vh::I(t[k++]), maxLU = vh::I(t[k++]), deriv = vh::I(t[k++]), sa = vh::I(t[k++]), sb = vh::I(t[k++]);
@@ -62,7 +66,11 @@ int main() {
 			if (n) o << "\n";
 		};
 		dump("D", logD); dump("E", logE);
+#ifdef LIBECPINT_VERIF
+		o << (libecpint::verif::no_screening ? "> sw 1 1 0 0 0 0\n> end\n" : "> sw 1 1 1 1 1 0\n> end\n");
+#else
 		o << "> sw 1 1 1 1 1 0\n> end\n";
+#endif
 		o << "< V " << V.dims[0] << " " << V.dims[1]; for (double v : V.data) o << " " << bits(v); o << "\n< end\n";
 	}
 	return 0;
